@@ -55,7 +55,7 @@ fn freq<T: Idx>(sink: &mut Sink, rng: &mut Rng, w: u32, thorough: bool) {
   let max_depth = <Frequency<T> as MocQty<T>>::MAX_DEPTH;
   let ub = Frequency::<T>::n_cells_max().to_u64();
   let mut hs: Vec<u64> = vec![0, 1, ub / 2, ub - 1, ub];
-  for _ in 0..(if thorough { 2000 } else { 300 }) {
+  for _ in 0..(if thorough { 10000 } else { 300 }) {
     hs.push(rng.below(ub + 1));
   }
   for h in hs {
@@ -67,7 +67,7 @@ fn freq<T: Idx>(sink: &mut Sink, rng: &mut Rng, w: u32, thorough: bool) {
   }
   // MOCs from values / ranges in Hz
   let valid: Vec<u64> = bits.iter().cloned().filter(|b| (929u64 << 52) <= *b && *b <= ((1184u64 << 52) | ((1 << 52) - 1))).collect();
-  for _ in 0..(if thorough { 1500 } else { 150 }) {
+  for _ in 0..(if thorough { 6000 } else { 150 }) {
     let d = rng.below(max_depth as u64 + 1) as u8;
     let n = rng.below(6) as usize;
     let vals: Vec<u64> = (0..n).map(|_| if rng.chance(1, 2) { *rng.pick(&valid) } else { (929u64 << 52) + rng.below((256u64 << 52) - 1) }).collect();
@@ -103,7 +103,7 @@ fn time<T: Idx>(sink: &mut Sink, rng: &mut Rng, w: u32, thorough: bool) {
     pool.push(1u64 << k);
     pool.push((1u64 << k) + 1);
   }
-  for _ in 0..(if thorough { 2500 } else { 250 }) {
+  for _ in 0..(if thorough { 10000 } else { 250 }) {
     let d = rng.below(max_depth as u64 + 1) as u8;
     let n = rng.below(6) as usize;
     let ts: Vec<u64> = (0..n).map(|_| if rng.chance(1, 2) { *rng.pick(&pool) } else { rng.below(lim) }).collect();
@@ -127,7 +127,7 @@ fn time<T: Idx>(sink: &mut Sink, rng: &mut Rng, w: u32, thorough: bool) {
 /// Store entry points: from_hz_values / from_hz_ranges / to_hz_ranges.
 fn store(sink: &mut Sink, rng: &mut Rng, thorough: bool) {
   let st = U64MocStore::get_global_store();
-  for _ in 0..(if thorough { 600 } else { 80 }) {
+  for _ in 0..(if thorough { 3000 } else { 80 }) {
     let d = rng.below(60) as u8;
     let n = 1 + rng.below(5) as usize;
     let vals: Vec<u64> = (0..n).map(|_| (929u64 << 52) + rng.below((256u64 << 52) - 1)).collect();
